@@ -129,7 +129,10 @@ def _chain(b: Builder, h: str, state, profile, H: int, depth: int) -> str:
             br = _chain(b, br, inner, profile, H, depth + 1)
             state["n_res"] += inner["n_res"]
             ins = [br, skip] if rng.random() < 0.5 else [skip, br]
-            form = "iadd" if (rng.random() < 0.2 and ins[0] == br) else "add"
+            # in-place add only onto a tensor that autograd does not need again (output of a linear / matmul / conv op)
+            prod = next((o["op"] for o in b.ops if o["out"] == br), "")
+            inplace_ok = prod in ("nn_linear", "linear_f", "matmul", "uu_linear", "U_linear")
+            form = "iadd" if (rng.random() < 0.3 and ins[0] == br and inplace_ok) else "add"
             h = b.op(form, ins, b.shape(skip))
         else:
             h = _step(b, h, profile, H)
